@@ -1226,10 +1226,12 @@ class RpcServer:
 
         cancelled = False
 
-        input_reader = ValidatedReader(ipc.open_stream(transport.reader), self._ipc_validation)
-
         prev_input: AnnotatedBatch | None = None
         try:
+            # Inside the logged region: a client that goes away after init makes
+            # opening its input stream fail, and the dispatched call must still
+            # leave an access-log record.
+            input_reader = ValidatedReader(ipc.open_stream(transport.reader), self._ipc_validation)
             with new_ipc_stream(transport.writer, output_schema) as output_writer:
                 sink.flush_contents(output_writer, output_schema)
                 cumulative_bytes = 0
